@@ -364,6 +364,41 @@ def gen_pairs(rng, per):
     return out
 
 
+HALF_TURN_ROTATIONS = [180.0, -180.0, 540.0, 360.0, -360.0, 90.0, 270.0, -90.0]
+
+
+def gen_half_turn(rng, per):
+    """Arcs whose rotation is a multiple of 90 degrees other than 0 (the ellipse as a point set is
+    axis-parallel, the parameterisation is not the unrotated one) against a Line through an
+    interior point of the arc, both operand orders; own rng stream (seeded change C11_8)."""
+    out = []
+    for rot in HALF_TURN_ROTATIONS:
+        for large in (False, True):
+            for i in range(per):
+                scale = ic.gen_scale(rng)
+                d = None
+                for _ in range(30):
+                    s = ic.rnd_c(rng, scale)
+                    e = s + ic.unit(rng) * rng.uniform(0.3, 1.5) * scale
+                    half = abs(e - s) / 2
+                    rx = half * rng.uniform(1.05, 3.0)
+                    ry = rx if rng.random() < 0.25 else half * rng.uniform(1.05, 3.0)
+                    try:
+                        a = ic.mkseg(('A', s, complex(rx, ry), rot, large, rng.random() < 0.5, e))
+                        P = complex(a.point(rng.uniform(0.15, 0.85)))
+                    except Exception:
+                        continue
+                    d = ('A', a.start, a.radius, a.rotation, a.large_arc, a.sweep, a.end)
+                    break
+                if d is None:
+                    continue
+                u = ic.unit(rng)
+                ln = ('L', P - u * scale * rng.uniform(0.2, 1.0), P + u * scale * rng.uniform(0.2, 1.0))
+                meta = {'config': 'half-turn-arc', 'scale': scale}
+                out.append((d, ln, meta) if i % 2 == 0 else (ln, d, meta))
+    return out
+
+
 def impl_pair(d1, d2, secs):
     s1, s2 = ic.mkseg(d1), ic.mkseg(d2)
     o12 = outcome(*ic.guarded(lambda: s1.intersect(s2), secs))
@@ -1025,6 +1060,12 @@ def run(rep, tier, seed, replay=None):
         for k_, v_ in gstats.items():
             stats[k_] = stats.get(k_, 0) + v_
         nontriv += gnontriv; nq += gq; nb += gb
+        # arcs rotated by multiples of 90 degrees against a Line (own rng: the streams above are unchanged)
+        hstream = gen_half_turn(common.mkrng(seed, 'C11-half-turn'), (2 if quick else 20) * boost)
+        hs, hnontriv, hq, hb, _ = run_pairs(rep, K, tmp, hstream, secs)
+        for k_, v_ in hs.items():
+            stats[k_] = stats.get(k_, 0) + v_
+        nontriv += hnontriv; nq += hq; nb += hb
         e4 = e4 + e5 + e6 + e7
         for e in e1 + e2 + e3 + e4:
             rep.violation('C11 model-tie case file failed to evaluate', {'kind': 'cases', 'error': e},
@@ -1038,7 +1079,7 @@ def run(rep, tier, seed, replay=None):
                            'HISTORIES (measure/intersect, edit in place via setitem/insert/append/del/pop/start/end, intersect again), plus, for the 9 Bezier kind pairs, contact exactly '
                            'on an edge of the control-polygon boxes (chains, chords through both end points, axis-parallel '
                            'departures; integer coordinates) and integer-grid Quadratic/Cubic pairs (strict operand symmetry: same number of '
-                           'pairs, same parameters exchanged), scales 0.01..1000, arcs circular/'
+                           'pairs, same parameters exchanged), and arcs rotated by k x 90 degrees (k != 0) against a Line through an interior point, scales 0.01..1000, arcs circular/'
                            'elliptic, rotated or not; non-trivial = at least one pair returned by either operand order (paths: '
                            'one returned entry); every returned pair is checked inside Coq: range, squared residual against '
                            '(tol x size)^2 with size = largest distance between defining points, swap symmetry within 1e-4')
